@@ -207,6 +207,40 @@ func c20Bodies() []c20Body {
 			c, e2 := b.Mul(f.fc.Weight)
 			return []string{obsT(b, e1), obsT(c, e2)}
 		}},
+		{name: "mathops", run: func(f *c20Fixture, y func()) []string {
+			var out []string
+			for _, op := range []ref.Op{{K: "Scale", F: -1.5}, {K: "Pow", F: 2}, {K: "Exp"}, {K: "Sin"}, {K: "Cos"}, {K: "Tan"}, {K: "Sinh"}, {K: "Cosh"}, {K: "Tanh"}} {
+				y()
+				r, err := rt.Apply(op, []tensor.Tensor{f.p})
+				out = append(out, obsT(r, err))
+			}
+			y()
+			r, err := rt.Apply(ref.Op{K: "Log"}, []tensor.Tensor{f.p.Pow(2)})
+			out = append(out, obsT(r, err))
+			for _, k := range []string{"Sub", "Div", "ElMax", "ElMin", "Eq", "Ne", "Gt", "Ge", "Lt", "Le"} {
+				y()
+				r, err := rt.Apply(ref.Op{K: k}, []tensor.Tensor{f.p, f.u})
+				out = append(out, obsT(r, err))
+			}
+			eq, err := f.p.Equals(f.u)
+			return append(out, fmt.Sprint(eq, err))
+		}},
+		{name: "shapeops", run: func(f *c20Fixture, y func()) []string {
+			var out []string
+			for _, op := range []ref.Op{{K: "Reshape", Shape: []int{4}}, {K: "Reshape", Shape: []int{1, 4, 1}}, {K: "UnSqueeze", Dim: 1}, {K: "Flatten", Dim: 0},
+				{K: "MinAlong", Dim: 0}, {K: "AvgAlong", Dim: 1}, {K: "VarAlong", Dim: 0}, {K: "StdAlong", Dim: 1}, {K: "MeanAlong", Dim: 0}} {
+				y()
+				r, err := rt.Apply(op, []tensor.Tensor{f.p})
+				out = append(out, obsT(r, err))
+			}
+			y()
+			sq, err := must(f.u.UnSqueeze(0)).Squeeze(0)
+			out = append(out, obsT(sq, err))
+			y()
+			out = append(out, fmt.Sprint(f.p.Max(), f.p.Min(), f.p.Avg(), f.p.Std(), f.p.Mean(), f.p.NElems(), f.p.Shape()))
+			v, err := f.p.At(1, 0)
+			return append(out, fmt.Sprint(v, err))
+		}},
 		{name: "random", random: true, run: func(f *c20Fixture, y func()) []string {
 			y()
 			a, e1 := tensor.RandU([]int{2, 2}, -1, 3, nil)
@@ -254,7 +288,7 @@ func c20Scenarios(thorough bool) []c20Scenario {
 		}
 	}
 	if thorough {
-		for _, tr := range [][]int{{0, 1, 6}, {4, 5, 8}, {6, 7, 9}, {2, 3, 9}, {9, 9, 9}, {4, 6, 6}} {
+		for _, tr := range [][]int{{0, 1, 6}, {4, 5, 8}, {6, 7, 11}, {2, 3, 11}, {11, 11, 11}, {4, 6, 6}, {9, 10, 6}} {
 			out = append(out, c20Scenario{tr})
 		}
 	}
